@@ -181,7 +181,7 @@ def run(ctx):
                 extra.append(dict(s, xs=xs, kind="last_choice_on_boundary", req=S.sample_request(c, s["routing"], s["table"], xs)))
     # every edge-choice coordinate exactly 0 (a generator of [0,1) delivers it): the first edge of each remaining graph is removed - the base
     # point of each of these was sampled successfully and differs in nothing else
-    for s in [s for s in ss if s["impl"].get("status") == "ok" and len(s["case"]["edges"]) >= 2][: (10 if ctx.quick else 60)]:
+    for s in [s for s in ss if s["impl"].get("status") == "ok" and len(s["case"]["edges"]) >= 2 and s.get("kind") == "uniform"][: (10 if ctx.quick else 60)]:
         n = len(s["case"]["edges"])
         xs = list(s["xs"])
         for k in range(n - 1):
@@ -234,7 +234,9 @@ def run(ctx):
         if a.get("status") == "panic":
             ctx.violation(f"sample panicked on a point of exactly get_dimension() = {len(s['xs'])} coordinates: {a.get('msg', '')[:120]}",
                           S.small_req(s), observed=a); continue
-        if s.get("kind") == "zero_choice" and a.get("status") != "ok":
+        # (another removal order is another point of the integrand: a numerical verdict of the matrix step - ZeroDet / Unstable - may differ;
+        # what must not happen is that the coordinate value 0 itself is refused)
+        if s.get("kind") == "zero_choice" and a.get("status") not in ("ok", "zerodet", "unstable"):
             ctx.violation(f"edge-choice coordinates exactly 0 are legal uniform numbers (the first edge is selected): sample returns {a.get('status')} "
                           f"where the same point with other edge-choice coordinates succeeds", S.small_req(s), expected="ok", observed=a.get("status")); continue
         # exact oracle for the whole removal sequence: coordinate 2k selects the (k+1)-th edge by the exact cumulative distribution of the
